@@ -560,18 +560,29 @@ impl Sess {
     /// Type ASCII text key by key (modifier 0, selection 0); returns the last suggestion.
     pub fn type_text(&self, text: &str) -> Result<Option<Suggestion>, Panic> {
         let mut last = None;
-        for c in text.chars() {
-            last = Some(self.key(kc(c), 0, 0)?);
+        for (i, c) in text.chars().enumerate() {
+            last = Some(self.key(self.route(text, i, c), 0, 0)?);
         }
         Ok(last)
+    }
+    /// Key code for the i-th character of `text`. In the phonetic method the number-pad keys type the same characters
+    /// as their main-block twins; a third of those characters (fixed by the text, so that a replay types the same keys)
+    /// go through the number pad.
+    pub fn route(&self, text: &str, i: usize, c: char) -> u16 {
+        if self.spec.lay == Lay::Phonetic && (c.is_ascii_digit() || matches!(c, '.' | '+' | '-' | '*' | '/')) && (fnv_str(&[text]) as usize).wrapping_add(i) % 3 == 0 {
+            if let Some(k) = KEYS.iter().find(|k| k.numpad && k.ch == Some(c)) {
+                return k.code;
+            }
+        }
+        kc(c)
     }
     /// Type with "protocol" selection bytes: each key carries the pre-selected
     /// index of the previously returned list (what a front-end highlights).
     pub fn type_text_protocol(&self, text: &str) -> Result<Option<Suggestion>, Panic> {
         let mut last: Option<Suggestion> = None;
         let mut sel = 0u8;
-        for c in text.chars() {
-            let s = self.key(kc(c), 0, sel)?;
+        for (i, c) in text.chars().enumerate() {
+            let s = self.key(self.route(text, i, c), 0, sel)?;
             sel = if s.is_lonely() { 0 } else { s.previously_selected_index().min(255) as u8 };
             last = Some(s);
         }
